@@ -468,7 +468,7 @@ def run_check(mod, prop: str, tier: str, seed: int) -> int:
         elif ctx.mismatches:
             m = ctx.mismatches[0]
             rp = write_replay(prop, {"property": prop, "kind_of_replay": "correspondence-break", "kind": "correspondence-break",
-                                     "op": m.op, "impl": m.impl, "model": m.model,
+                                     "op": m.op, "impl": m.impl, "model": m.model, "case": m.case,
                                      "more": [[x.op, x.impl, x.model] for x in ctx.mismatches[1:10]],
                                      "count": ctx.hist.get("corr.mismatch", 0), "seed": seed,
                                      "note": "model and implementation disagree on this operation; the theorems no longer speak about this code. The failing-input search on the implementation found no counterexample"})
